@@ -266,6 +266,21 @@ func (f *Facts) Check(t []rune, p, g int, m span) string {
 		if !ok {
 			return fmt.Sprintf("BmPrefix=%q (ci=%v) is not at the matching position %d", string(pat), ci, p)
 		}
+		// the search tables must agree with the pattern text: scanning from any position before the
+		// match must stop at or before the match (the first occurrence cannot lie beyond it)
+		starts := []int{0, p / 2, p}
+		if f.RTL {
+			starts = []int{n, (p + n + 1) / 2, p}
+		}
+		for _, from := range starts {
+			res := bm.Scan(t, from, 0, n)
+			if !f.RTL && (res < from || res > p) {
+				return fmt.Sprintf("BmPrefix=%q: Scan from %d returns %d although the pattern matches (and the prefix occurs) at %d", string(pat), from, res, p)
+			}
+			if f.RTL && (res > from || res < p) {
+				return fmt.Sprintf("BmPrefix=%q (right-to-left): Scan from %d returns %d although the pattern matches (and the prefix ends) at %d", string(pat), from, res, p)
+			}
+		}
 	}
 	return ""
 }
